@@ -34,7 +34,7 @@ def gen_fasta(rng, nrec=None, widths=None, maxlen=240, crlf=None, final_nl=None,
         w = rng.choice(widths or WIDTHS)
         seq = gen_seq(rng, w, alphabet, maxlen)
         while True:
-            name = rng.choice(["r", "seq", "scaffold_", "HAP1_x", "c|", "a.b:"]) + str(rng.randint(0, 999))
+            name = rng.choice(["r", "seq", "scaffold_", "HAP1_x", "c|", "a.b:", "HG002#1#chr"]) + str(rng.randint(0, 999))
             if name not in used:
                 used.add(name)
                 break
